@@ -9,18 +9,32 @@ use std::io::{self, BufReader, Read};
 struct LineReader {
     lines: Vec<Vec<u8>>,
     next: usize,
-    err_at: usize, // 1-based line whose delivery fails, 0 = never
+    err_at: usize,   // 1-based line whose delivery fails, 0 = never
+    kind: io::ErrorKind,
+    mid: bool,       // deliver half of the line before reporting the error
+    half_done: bool,
+    fired: bool,
 }
 impl Read for LineReader {
     fn read(&mut self, buf: &mut [u8]) -> io::Result<usize> {
         // a line of zero bytes (an empty last line without newline) cannot be delivered: Ok(0)
         // would mean end-of-file to the caller, so it is skipped
         while self.next < self.lines.len() && self.lines[self.next].is_empty()
-            && !(self.err_at != 0 && self.next + 1 >= self.err_at) {
+            && !(self.err_at != 0 && !self.fired && self.next + 1 >= self.err_at) {
             self.next += 1;
         }
-        if self.err_at != 0 && self.next + 1 >= self.err_at {
-            return Err(io::Error::new(io::ErrorKind::Other, "scripted I/O error"));
+        if self.err_at != 0 && !self.fired && self.next + 1 >= self.err_at {
+            if self.mid && !self.half_done && self.next < self.lines.len() && self.lines[self.next].len() >= 2 {
+                // first half of the line, the error comes with the next read
+                let l = self.lines[self.next].clone();
+                let n = (l.len() / 2).min(buf.len());
+                buf[..n].copy_from_slice(&l[..n]);
+                self.lines[self.next] = l[n..].to_vec();
+                self.half_done = true;
+                return Ok(n);
+            }
+            self.fired = true;   // reported once; a caller that carries on gets the remaining data
+            return Err(io::Error::new(self.kind, "scripted I/O error"));
         }
         if self.next >= self.lines.len() {
             return Ok(0);
@@ -66,7 +80,16 @@ pub fn scanindex(input: &Value) -> Out {
     }
     let err_at = input["err_at"].as_u64().unwrap_or(0) as usize;
     let n = lines.len() as u64;
-    let rd = BufReader::with_capacity(64, LineReader { lines, next: 0, err_at });
+    let kind = match input.get("err_kind").and_then(|k| k.as_str()).unwrap_or("Other") {
+        "WouldBlock" => io::ErrorKind::WouldBlock,
+        "Interrupted" => io::ErrorKind::Interrupted,
+        "TimedOut" => io::ErrorKind::TimedOut,
+        "BrokenPipe" => io::ErrorKind::BrokenPipe,
+        "UnexpectedEof" => io::ErrorKind::UnexpectedEof,
+        _ => io::ErrorKind::Other,
+    };
+    let mid = input.get("err_mid").map(|m| m == "T").unwrap_or(false);
+    let rd = BufReader::with_capacity(64, LineReader { lines, next: 0, err_at, kind, mid, half_done: false, fired: false });
     match ScanIndex::from_reader(rd) {
         Ok(v) => {
             let depends_empty = v.iter().all(|r| r.depends.is_empty());
